@@ -135,11 +135,13 @@ class Peer:
                     if req['kind'] == 'aa55': other = req
                     alt = F.valid_response(other, lambda r, c: bytes((x + 1) & 255 for x in s.payload_fn(r, c)))
                     rest = alt[k:]
-                self._send(first)
+                d1 = letter.get('first', 0)          # the first piece itself arrives `first` seconds after the transmission
+                if d1 <= 0: self._send(first)
+                else: self._later(d1, first)
                 if kind2 != 'none':
                     d = letter.get('delay', T / 4)
-                    if d <= 0: self._send(rest)
-                    else: self._later(d, rest)
+                    if d <= 0 and d1 <= 0: self._send(rest)
+                    else: self._later(d1 + max(d, 0), rest)
         else:
             ok = F.valid_response(req, s.payload_fn)
             rnd = random.Random(len(s.log) * 7919 + len(raw))
